@@ -18,5 +18,7 @@ class NegatedExpression(Node):
     def parse(self, scope):
         val, = self.process(self.tokens, scope)
         if isinstance(val, string_types):
-            return '-' + val
+            # the operand is already printed: negating a negative result
+            # removes its sign instead of stacking a second one ('--2')
+            return val[1:] if val.startswith('-') else '-' + val
         return -val
